@@ -305,7 +305,7 @@ func applyChange(content string, lines []string, change TextDocumentContentChang
 // Positions outside the document clamp: a negative line is the start of the
 // document, a line past the last line is the end of the document, a negative
 // character is the start of its line and a character past the end of a line
-// is the end of that line.
+// is the end of that line. Characters are counted in UTF-16 code units.
 func positionToOffset(lines []string, pos Position) int {
 	if pos.Line < 0 {
 		return 0
@@ -321,13 +321,26 @@ func positionToOffset(lines []string, pos Position) int {
 		}
 		return offset
 	}
-	lineLen := len(lines[pos.Line])
-	if pos.Character >= lineLen {
-		offset += lineLen
-	} else if pos.Character > 0 {
-		offset += pos.Character
+	return offset + utf16ColumnToByteOffset(lines[pos.Line], pos.Character)
+}
+
+// utf16ColumnToByteOffset converts a column counted in UTF-16 code units (the
+// unit of LSP positions) to a byte offset within line. A column that is
+// negative, past the end of the line or inside a surrogate pair clamps to the
+// start of the line, the end of the line or the start of that character.
+func utf16ColumnToByteOffset(line string, col int) int {
+	units := 0
+	for i, r := range line {
+		n := 1
+		if r >= 0x10000 {
+			n = 2 // encoded as a surrogate pair in UTF-16
+		}
+		if units+n > col {
+			return i
+		}
+		units += n
 	}
-	return offset
+	return len(line)
 }
 
 // GetWordAtPosition returns the word at the given position.
